@@ -233,10 +233,74 @@ def _check_flag_misc(ctx, model, dm):
            "include_cses is bypassed")
 
 
+def _judge_init(model, dm, fn):
+    """the constructor interpreted for composite_leaves in (None, True,
+    False): with a bool every include_* flag but include_cses becomes that
+    bool, otherwise every flag is what was passed.  -> witnesses"""
+    from ..absint import Interp, Obj, Opaque, Raised, StepBound, module_env
+    glob = module_env(dm.module.tree, {})
+    wit = []
+    given = {"include_subscripts": "<S>", "include_lookups": "<L>",
+             "include_calls": "descend_args", "include_cses": "<E>"}
+    for cl in (None, True, False):
+        me = Obj("DependencyMapper", {})
+        noop = lambda it_, n_, a, k: None      # noqa: E731
+        calls = {"super().__init__": noop}
+        for b in dm.bases_src if hasattr(dm, "bases_src") else ():
+            calls[f"{b}.__init__"] = noop
+        for b in ("Collector", "CSECachingMapperMixin", "CombineMapper",
+                  "Mapper", "CachedMapper"):
+            calls[f"{b}.__init__"] = noop
+        it = Interp(calls=calls, globals_=glob, max_steps=5000,
+                    attrs=lambda it_, n_, b, at: Opaque(ast.unparse(n_)))
+        try:
+            it.call_function(fn, [me], dict(
+                glob, __kwargs__=dict(given, composite_leaves=cl)))
+        except Raised as r:
+            wit.append(f"composite_leaves={cl!r}: raises at line "
+                       f"{getattr(r.node, 'lineno', '?')}")
+            continue
+        except StepBound:
+            wit.append(f"composite_leaves={cl!r}: does not terminate")
+            continue
+        for f, v in given.items():
+            want = v if cl is None or f == "include_cses" else cl
+            got = me.fields.get(f, "<unset>")
+            if got != want or type(got) is not type(want):
+                wit.append(f"composite_leaves={cl!r}: self.{f} ends up as "
+                           f"{got!r}, expected {want!r}")
+    return wit
+
+
 def _check_init(ctx, model, dm):
     init = dm.members.get("__init__")
     if init is None or init.kind != "func":
         raise AnalysisError("DependencyMapper.__init__ not found")
+    wit = None
+    try:
+        wit = _judge_init(model, dm, init.node)
+    except AnalysisError as e:
+        ctx.extra["judge_unavailable:DependencyMapper.__init__"] = str(e)
+    if wit is not None:
+        ctx.ob("T0/DependencyMapper/__init__/flag-semantics", not wit,
+               where(init),
+               "the constructor interpreted for composite_leaves None / True / "
+               "False: a bool sets the three include_* flags, anything else "
+               "leaves what was passed; include_cses is never touched"
+               if not wit else "DependencyMapper.__init__: " + "; ".join(wit[:2]))
+    mark = len(ctx.obs)
+    try:
+        _check_init_structural(ctx, model, dm, init)
+    except AnalysisError:
+        if wit is None or wit:
+            raise
+    if wit is not None and not wit:
+        ctx.withdraw_failures_since(
+            mark, "decided by interpreting the constructor",
+            prefix="T/DependencyMapper/__init__/")
+
+
+def _check_init_structural(ctx, model, dm, init):
     fn = init.node
     flags = ["include_subscripts", "include_lookups", "include_calls"]
     # the constructor is evaluated once for each value the switch can take
@@ -486,6 +550,14 @@ def _check_cached_dep(ctx, model, dm, cdm):
             if isinstance(c, ast.Call) and ast.unparse(c.func) == \
                     "DependencyMapper.__init__":
                 kws = {k.arg: ast.unparse(k.value) for k in c.keywords}
+                # positional arguments bind in the order of the base
+                # constructor's own parameter list (after self)
+                binit = dm.members.get("__init__")
+                bparams = [a.arg for a in binit.node.args.args][1:] \
+                    if binit is not None and binit.kind == "func" else []
+                for prm, a_ in zip(bparams, c.args[1:]):
+                    if not isinstance(a_, ast.Starred):
+                        kws.setdefault(prm, ast.unparse(a_))
                 ok = all(kws.get(nm) == nm for nm in names)
     ctx.ob("S/CachedDependencyMapper/init-passes-flags", ok, cdm.loc(),
            "constructor passes every flag through unchanged" if ok else
@@ -554,6 +626,18 @@ def _check_node_count(ctx, model):
     ctx.floor("NodeCountMapper (mapper, node) pairs", pairs, 30)
     # get_num_nodes
     m, fn = model.func("pymbolic.mapper.analysis:get_num_nodes")
+    gwit = None
+    try:
+        gwit = _judge_get_num_nodes(m, fn)
+    except AnalysisError as e:
+        ctx.extra["judge_unavailable:get_num_nodes"] = str(e)
+    if gwit is not None:
+        ctx.ob("P0/get_num_nodes/fresh-counter", not gwit, m.loc(fn),
+               "get_num_nodes interpreted: one counter is made in the call, "
+               "applied to the expression, and its count read afterwards is "
+               "the answer" if not gwit else "get_num_nodes: " + "; ".join(gwit))
+    if gwit is not None and not gwit:
+        return
     ok = False
     for ps in summarize(fn, plain=True):
         if ps.term != "return":
@@ -582,7 +666,206 @@ def _add_terms(v):
     return [v]
 
 
+def _judge_get_num_nodes(m, fn):
+    from ..absint import Interp, Opaque, Raised, StepBound, module_env
+    glob = module_env(m.tree, {})
+    made = []
+
+    class Counter:
+        def __init__(self):
+            self.applied = []
+
+        def __call__(self, *a, **k):
+            self.applied.append((a, k))
+            return ("count-of", self, len(self.applied))
+
+        rec = __call__
+
+    def make(it, nd, a, k):
+        if a or k:
+            raise AnalysisError("NodeCountMapper(...) with arguments")
+        made.append(Counter())
+        return made[-1]
+
+    def attrs(it, nd, base, attr):
+        if isinstance(base, Counter) and attr == "count":
+            return ("count-of", base, len(base.applied))
+        if isinstance(base, Counter) and attr in ("rec", "__call__"):
+            return base
+        return Opaque(ast.unparse(nd))
+    it = Interp(calls={"NodeCountMapper": make}, attrs=attrs, globals_=glob,
+                max_steps=2000)
+    try:
+        got = it.call_function(fn, ["EXPR"], dict(glob))
+    except Raised as r:
+        return [f"raises at line {getattr(r.node, 'lineno', '?')}"]
+    except StepBound:
+        return ["does not terminate"]
+    if len(made) != 1:
+        return [f"{len(made)} counters are made in one call"]
+    c = made[0]
+    if c.applied != [(("EXPR",), {})]:
+        return [f"the counter is applied to {c.applied!r}, not once to the "
+                "expression"]
+    if got != ("count-of", c, 1):
+        return [f"answers {got!r}, not the counter's count after the walk"]
+    return []
+
+
+def _judge_cse_aware(model, cse, mem):
+    from ..absint import Interp, Obj, Opaque, Poly, Raised, StepBound, module_env
+    glob = module_env(cse.module.tree, {})
+
+    class W:
+        """a wrapper node: hashable, equal to itself only"""
+
+        def __init__(self, name):
+            self.name = name
+            self.child = ("child-of", name)
+
+        def __repr__(self):
+            return f"<cse {self.name}>"
+    wit = []
+    for hist in (["a", "a"], ["a", "b", "a", "b"], ["a", "a", "a"]):
+        ws = {nm: W(nm) for nm in set(hist)}
+        recs = []
+
+        def rec(*a, _r=recs, **k):
+            _r.append(a[0])
+            return Poly.sym(f"c_{a[0][1]}")
+        me = Obj("__cse_counter__", {"cse_seen_set": set(), "rec": rec})
+        it = Interp(calls={"self.rec": lambda it_, n_, a, k: rec(*a, **k)},
+                    globals_=glob, max_steps=5000,
+                    attrs=lambda it_, n_, b, at: (
+                        getattr(b, at) if isinstance(b, W) and at in (
+                            "child",) else Opaque(ast.unparse(n_))))
+        seen = set()
+        for i, nm in enumerate(hist):
+            before = len(recs)
+            try:
+                got = it.call_function(mem.node, [me, ws[nm]], dict(glob))
+            except Raised as r:
+                wit.append(f"history {hist}, request {i + 1}: raises at line "
+                           f"{getattr(r.node, 'lineno', '?')}")
+                break
+            except StepBound:
+                wit.append(f"history {hist}: does not terminate")
+                break
+            if nm in seen:
+                if got != 0 or len(recs) != before:
+                    wit.append(f"history {hist}, request {i + 1} (seen "
+                               f"before): costs {got!r}"
+                               + (", child recounted" if len(recs) != before
+                                  else ""))
+                    break
+            else:
+                want = Poly.sym(f"c_{nm}")
+                if not isinstance(got, Poly) or got != want or \
+                        recs[before:] != [("child-of", nm)]:
+                    wit.append(f"history {hist}, request {i + 1} (first "
+                               f"sight): costs {got!r}, expected the child's")
+                    break
+            seen.add(nm)
+    return wit
+
+
+def _judge_flops(model, base):
+    """the arithmetic handlers of the flop counter interpreted with symbolic
+    child costs: a sum / product of n operands costs max(n - 1, 0) plus its
+    operands, a quotient / floor division / power 1 plus its two operands.
+    -> witnesses"""
+    from ..absint import Interp, Obj, Opaque, Poly, Raised, StepBound, module_env
+    glob = module_env(base.module.tree, {})
+    wit = []
+
+    def resolve(cls, nm):
+        if cls == "__counter__" and nm not in ("rec", "__call__",
+                                                "rec_fallback"):
+            m_ = model.lookup(base, nm)
+            if m_ is not None and m_.kind == "func":
+                return ("func", m_.node)
+        return None
+
+    class Kid:
+        def __init__(self, name):
+            self.name = name
+
+    def rec(it, nd, a, k):
+        if not isinstance(a[0], Kid):
+            raise AnalysisError("flop judge: rec of something that is not a "
+                                "child")
+        return Poly.sym(f"c_{a[0].name}")
+    cases = []
+    for slot, cls in (("map_sum", "Sum"), ("map_product", "Product")):
+        for n in range(0, 4):
+            kids = tuple(Kid(f"k{i}") for i in range(n))
+            want = Poly.const(max(n - 1, 0))
+            for kd in kids:
+                want = want + Poly.sym(f"c_{kd.name}")
+            cases.append((slot, f"{n} operands",
+                          Obj(cls, {"children": kids}), want))
+    for slot, cls, fa, fb in (("map_quotient", "Quotient", "numerator",
+                               "denominator"),
+                              ("map_floor_div", "FloorDiv", "numerator",
+                               "denominator"),
+                              ("map_power", "Power", "base", "exponent")):
+        a, b = Kid("a"), Kid("b")
+        cases.append((slot, "", Obj(cls, {fa: a, fb: b}),
+                      Poly.const(1) + Poly.sym("c_a") + Poly.sym("c_b")))
+    for slot, label, node, want in cases:
+        mem = model.lookup(base, slot)
+        if mem is None or mem.kind != "func":
+            raise AnalysisError(f"FlopCounterBase.{slot} not found")
+        me = Obj("__counter__", {
+            "rec": lambda *a_, **k_: rec(None, None, list(a_), k_)})
+        it = Interp(calls={"self.rec": rec, "self": rec}, resolve=resolve,
+                    globals_=glob, max_steps=20000,
+                    attrs=lambda it_, n_, b, at: (
+                        (lambda *a_, **k_: rec(it_, n_, list(a_), k_))
+                        if isinstance(b, Obj) and b.cls == "__counter__"
+                        and at == "rec" else Opaque(ast.unparse(n_))))
+        try:
+            got = it.call_function(mem.node, [me, node], dict(glob))
+        except Raised as r:
+            wit.append(f"{slot} {label}: raises at line "
+                       f"{getattr(r.node, 'lineno', '?')}")
+            continue
+        except StepBound:
+            wit.append(f"{slot} {label}: does not terminate")
+            continue
+        if not isinstance(got, (Poly, int)) or isinstance(got, bool) or \
+                Poly.lift(got) != want:
+            wit.append(f"{slot} {label}: costs {got!r}, expected {want!r}")
+    return wit
+
+
 def _check_flops(ctx, model):
+    FC = "pymbolic.mapper.flop_counter"
+    base = model.cls(f"{FC}:FlopCounterBase")
+    fwit = None
+    try:
+        fwit = _judge_flops(model, base)
+    except AnalysisError as e:
+        ctx.extra["judge_unavailable:FlopCounterBase"] = str(e)
+    if fwit is not None:
+        ctx.ob("E0/FlopCounterBase/cost-semantics", not fwit, base.loc(),
+               "sum / product (0..3 operands), quotient, floor division and "
+               "power interpreted with symbolic operand costs: n-1 (or 1) "
+               "operations plus the operands'" if not fwit else
+               "FlopCounterBase: " + "; ".join(fwit[:2]))
+    mark = len(ctx.obs)
+    try:
+        _check_flops_structural(ctx, model)
+    except AnalysisError:
+        if fwit is None or fwit:
+            raise
+    if fwit is not None and not fwit:
+        ctx.withdraw_failures_since(
+            mark, "decided by interpreting the handlers with symbolic costs",
+            prefix="E/FlopCounterBase/map_")
+
+
+def _check_flops_structural(ctx, model):
     FC = "pymbolic.mapper.flop_counter"
     base = model.cls(f"{FC}:FlopCounterBase")
     nt = model.nodes
@@ -685,6 +968,22 @@ def _check_flops(ctx, model):
     cse = model.cls(f"{FC}:CSEAwareFlopCounter")
     mem = effective_member(model, cse, "map_common_subexpression")
     ok_all = mem is not None and mem.kind == "func" and mem.owner is cse
+    cwit = None
+    if ok_all:
+        try:
+            cwit = _judge_cse_aware(model, cse, mem)
+        except AnalysisError as e:
+            ctx.extra["judge_unavailable:CSEAwareFlopCounter"] = str(e)
+        if cwit is not None:
+            ctx.ob("P0/CSEAwareFlopCounter/history-semantics", not cwit,
+                   where(mem),
+                   "map_common_subexpression interpreted over request "
+                   "histories on one counter: the first sight of a wrapper "
+                   "costs its child, every later one 0 without recounting, "
+                   "another wrapper is counted on its own" if not cwit else
+                   "CSEAwareFlopCounter.map_common_subexpression: "
+                   + "; ".join(cwit[:2]))
+    mark_cse = len(ctx.obs)
     if ok_all:
         n = nt.get("CommonSubexpression")
         pss = handler_summaries(model, n, mem.node)
@@ -725,3 +1024,7 @@ def _check_flops(ctx, model):
            "membership test with both branches" if ok_all else
            "CSEAwareFlopCounter.map_common_subexpression lacks the "
            "seen/new branches")
+    if cwit is not None and not cwit:
+        ctx.withdraw_failures_since(
+            mark_cse, "decided by interpreting the handler over request "
+            "histories", prefix="P/CSEAwareFlopCounter/")
